@@ -924,13 +924,10 @@ impl Ctx {
     });
     // a revoked target entry that reads false afterwards: the one-way rule itself failed
     if w.purpose == StatusPurpose::Revocation {
-      // ... unless another accepted write of `false` in the same call hit the same byte: then the loss is
-      // explained by that write disturbing its neighbours and is reported under that signature below.
-      let collateral = |d: usize| writes.iter().any(|x| x.2 && !x.1 && x.0 != d && x.0 / 8 == d / 8);
       let cleared: Vec<usize> = diffs
         .iter()
         .copied()
-        .filter(|d| targets.contains(d) && !collateral(*d) && before.get(*d) && actual[*d / 8] & (0x80u8 >> (*d % 8)) == 0)
+        .filter(|d| targets.contains(d) && before.get(*d) && actual[*d / 8] & (0x80u8 >> (*d % 8)) == 0)
         .collect();
       if !cleared.is_empty() {
         self.rep.violation(
@@ -941,8 +938,7 @@ impl Ctx {
         return true;
       }
     }
-    let collateral = |d: usize| writes.iter().any(|x| x.2 && !x.1 && x.0 != d && x.0 / 8 == d / 8);
-    let others: Vec<usize> = diffs.iter().copied().filter(|d| !targets.contains(d) || collateral(*d)).collect();
+    let others: Vec<usize> = diffs.iter().copied().filter(|d| !targets.contains(d)).collect();
     let any_accepted = writes.iter().any(|x| x.2);
     if !others.is_empty() && any_accepted {
       let wrote_false = writes.iter().any(|x| x.2 && !x.1);
@@ -1324,6 +1320,48 @@ impl Ctx {
     }
   }
 
+  /// Smallest credential-level histories, run first so that the first witness per signature is minimal.
+  fn canon_cred(&mut self, template: &Credential) {
+    for purpose in [StatusPurpose::Revocation, StatusPurpose::Suspension] {
+      self.rep.eval();
+      let model = Model { bytes: vec![0; MIN_ENTRIES / 8] };
+      let cid = "https://example.com/status/1".to_string();
+      let origin = json!({"list_credential":"StatusList2021CredentialBuilder::new(StatusList2021::default())","id":cid,
+        "credentialSubject.id":cid,"purpose":purpose_str(purpose)});
+      let Some(lc) = self.make_list_cred(&model, purpose, true, &cid, &cid, 0, &origin) else { continue };
+      self.rep.inc("list_credentials");
+      let mut w = CredWorld { lc, model, purpose, cid: cid.clone(), sid: cid.clone(), origin, hist: Vec::new() };
+      let len = w.model.len();
+      let mut c0 = template.clone();
+      let Some(s0) = self.cred_set_status(&mut w, &mut c0, 0, true) else { continue };
+      // clearing an entry that is not set is allowed for both purposes and must not touch entry 0
+      let mut c1 = template.clone();
+      if self.cred_set_status(&mut w, &mut c1, 1, false).is_none() {
+        continue;
+      }
+      self.cred_entry(&w, 0);
+      self.check_status(&w, &c0, s0.as_ref(), StatusCheck::Strict);
+      // one-way rule on entry 0
+      let mut c2 = template.clone();
+      if self.cred_set_status(&mut w, &mut c2, 0, false).is_none() {
+        continue;
+      }
+      self.cred_entry(&w, 0);
+      self.check_status(&w, &c0, s0.as_ref(), StatusCheck::Strict);
+      // a statusListIndex from outside that lies beyond the list
+      let spec = StatusSpec { url: cid.clone(), purpose, index: len, made_by: "harness(index out of range)" };
+      if let Ok(Ok(st)) = catch(|| serde_json::from_value::<Status>(Ctx::status_json(&spec, false))) {
+        let mut c3 = template.clone();
+        c3.credential_status = Some(st);
+        self.check_status(&w, &c3, Some(&spec), StatusCheck::Strict);
+      }
+      self.cred_entry(&w, len);
+      let mut c4 = template.clone();
+      let _ = self.cred_set_status(&mut w, &mut c4, len, true);
+      self.rep.distinct("nontrivial", &format!("canon-cred|{}", purpose_str(purpose)));
+    }
+  }
+
   fn run_cred_scenario(&mut self, rng: &mut Rng, nops: usize, big: bool, template: &Credential) {
     self.rep.eval();
     let purpose = if rng.bool() { StatusPurpose::Revocation } else { StatusPurpose::Suspension };
@@ -1394,7 +1432,18 @@ impl Ctx {
         }
         35..=54 => {
           let k = 1 + rng.usize(3);
-          let writes: Vec<(usize, bool)> = (0..k).map(|_| (pick_idx(rng), rng.chance(1, 2))).collect();
+          let mut writes: Vec<(usize, bool)> = (0..k).map(|_| (pick_idx(rng), rng.chance(1, 2))).collect();
+          // Keep root causes apart: inside one call no two writes go to different entries of the same byte
+          // (a write that disturbed its neighbours would otherwise be indistinguishable from a wrong result for
+          // the neighbour's own write). Same-byte interplay is exercised across calls and at list level;
+          // repeated writes to the same entry (set then clear inside one update) stay.
+          let mut kept: Vec<(usize, bool)> = Vec::new();
+          for (i, v) in writes.drain(..) {
+            if !kept.iter().any(|(j, _)| *j != i && *j / 8 == i / 8) {
+              kept.push((i, v));
+            }
+          }
+          let writes = kept;
           if !self.cred_update(&mut w, &writes, rng.chance(2, 3)) {
             return;
           }
@@ -1538,6 +1587,17 @@ fn main() {
     }
   }
 
+  let template: Credential = CredentialBuilder::default()
+    .id(Url::parse("https://example.edu/credentials/3732").expect("url"))
+    .issuer(Url::parse("https://example.edu/issuers/14").expect("url"))
+    .type_("UniversityDegreeCredential")
+    .subject(Subject::with_id(Url::parse("did:example:ebfeb1f712ebc6f1c276e12ec21").expect("url")))
+    .build()
+    .expect("template credential");
+  if args.shard == 0 {
+    cx.canon_cred(&template);
+  }
+
   // ---- (1) exhaustive single-write table
   {
     let nbytes_a = MIN_ENTRIES / 8;
@@ -1583,7 +1643,8 @@ fn main() {
             }
             let i = *pos * 8 + off;
             let hist = [Op::Set(i, v)];
-            cx.do_set(&mut list, &mut model, i, v, &route, &hist, true);
+            // reduced scale (Miri/sanitizer runs): the gzip round trip only on every 4th table case
+            cx.do_set(&mut list, &mut model, i, v, &route, &hist, scale >= 100 || idx % 4 == 0);
           }
         }
       }
@@ -1610,13 +1671,6 @@ fn main() {
   }
 
   // ---- (3) credential level
-  let template: Credential = CredentialBuilder::default()
-    .id(Url::parse("https://example.edu/credentials/3732").expect("url"))
-    .issuer(Url::parse("https://example.edu/issuers/14").expect("url"))
-    .type_("UniversityDegreeCredential")
-    .subject(Subject::with_id(Url::parse("did:example:ebfeb1f712ebc6f1c276e12ec21").expect("url")))
-    .build()
-    .expect("template credential");
   let mut rng3 = args.rng(1203);
   let n_sc = scaled(if thorough { 8_000 } else { 320 }, scale);
   let per_shard = n_sc.div_ceil(args.nshards.max(1));
